@@ -31,22 +31,23 @@ def audit(fs, prop="C20"):
     present = set()
     for name in names:
         path = posixpath.join(MSGDIR, name)
-        content = fs.content(path)
+        content = fs.content(path)            # bytes; offsets below are byte offsets
         off = 0
-        lines = content.split("\n")
-        for idx, line in enumerate(lines):
+        lines = content.split(b"\n")
+        for idx, raw in enumerate(lines):
             start = off
-            off += len(line) + 1
+            off += len(raw) + 1
             last = idx == len(lines) - 1
-            if last and line == "":
+            if last and raw == b"":
                 continue
+            line = raw.decode("utf-8", "replace")
             rec = None
             try:
-                rec = json.loads(line)
+                rec = json.loads(raw.decode("utf-8"))
             except ValueError:
                 rec = None
             if not (isinstance(rec, dict) and KEYS <= set(rec)):
-                end = start + len(line)
+                end = start + len(raw)
                 # a fragment left by a crash is tolerated iff it stands alone on its line
                 left = False
                 glued = False
@@ -57,14 +58,14 @@ def audit(fs, prop="C20"):
                             left = True
                             if end > L:
                                 glued = True
-                if left and not glued and line != "":
+                if left and not glued and raw != b"":
                     nfrag += 1
                     continue
                 if left and glued:
                     raise Violation(prop, "audit", "record-glued-to-crash-fragment",
                                     "file %s: after the crash left the fragment %r, the next record was appended to the same "
                                     "line: %r" % (name, line[:40], line[:160]))
-                raise Violation(prop, "audit", "malformed-line/%s" % ("empty" if line == "" else "not-a-record"),
+                raise Violation(prop, "audit", "malformed-line/%s" % ("empty" if raw == b"" else "not-a-record"),
                                 "file %s line %d is not a complete JSON record with keys t,seq,type,msg: %r" % (name, idx + 1, line[:160]))
             if rec["seq"] != expected:
                 kind = "restarts-at-%d" % rec["seq"] if rec["seq"] < expected and rec["seq"] <= 1 else (
@@ -139,7 +140,10 @@ class LogCtx(BaseCtx):
         if st in ("IDLE", "CONNECT"):
             for k, c in enumerate(live):
                 if c.state == "connecting":
-                    return ["conn_refuse", k] if rng.chance(0.15) else ["conn_ok", k]
+                    if rng.chance(0.2):
+                        # the OS error text goes into the log; on a localised host it is not ASCII
+                        return ["conn_refuse", k, rng.pick([None, "Connexion refus\u00e9e", "\u62d2\u7edd\u8fde\u63a5", "Verbindungsaufbau abgelehnt"])]
+                    return ["conn_ok", k]
             if w.reactor.due():
                 return ["fire", 0]
             return None
@@ -182,7 +186,7 @@ class LogCtx(BaseCtx):
             listing = self.fs.listing(MSGDIR) if MSGDIR in self.fs.dirs else []
             tail = ""
             if listing:
-                tail = self.fs.content(posixpath.join(MSGDIR, listing[-1]))[-60:]
+                tail = self.fs.content(posixpath.join(MSGDIR, listing[-1]))[-60:].decode("utf-8", "replace")
             kind = "SystemExit" if any(e[2] == "exit" for e in why) else "exception"
             raise Violation("C20", "startup", "refused-to-start/%s" % kind,
                             "agent start-up ended with %s (%s); newest log file %s ends with %r"
@@ -254,7 +258,7 @@ class LogCtx(BaseCtx):
         h = hashlib.sha256(self.world.digest().encode())
         for p in sorted(self.fs.files):
             h.update(p.encode())
-            h.update(self.fs.files[p].cache.encode())
+            h.update(self.fs.files[p].cache)
         return h.hexdigest()
 
 
@@ -284,6 +288,10 @@ class SweepCtx(LogCtx):
         for _ in range(rng.randrange(1, 4)):
             tail.append(["send", 0, base.gen_update(rng, cfg, True).hex(), []])
         tail.append(["pclose", 0, True])
+        # ... and a second, clean restart followed by more records (recovery must also cope with a log
+        # that holds an old crash fragment in its middle)
+        tail += [["restart"], ["fire", 0], ["conn_ok", 0], ["send", 0, cfg["peer_open"], []],
+                 ["send", 0, base.gen_update(rng, cfg, True).hex(), []]]
         return ["sweep", hist, tail]
 
     def step(self, op):
